@@ -16,7 +16,6 @@ GR = '_Z15get_replacementSt4pairI13MacroDetectorNS0_8ResponseEEi'
 # contract stubs of the LR machinery (constructor, detect), libc strtol on short texts, token_string of the flex TU
 BASE_STUBS = {'_ZN13MacroDetectorC2EN4Theo15MacroDefinitionE': 'stub_ctor', '_ZN13MacroDetector6detectERSt6vectorIN4Theo5TokenEE': 'stub_detect',
               'strtol': 'stub_strtol', '_ZN4Theo12token_stringENS_5Token4TypeE': 'stub_token_string'}
-WRAP_STUBS = dict(BASE_STUBS, **{GR: 'wrap_get_replacement'})                       # real get_replacement behind a recorder
 STEP_STUBS = dict(BASE_STUBS, **{'_Z2MDR15ExtractionState': 'stub_MD', '_Z1AR15ExtractionState': 'stub_A'})   # recursive continuation recorded
 # assertions of the code under test and of the container model it calls (harness functions excluded; NULL+0 of an empty initializer_list is not UB in C++)
 UB_PAT = r'^(?!_ZNKSt16initializer_list)(_ZN4Theo|_ZNSt|_ZNKSt|_ZSt|_Z15get_replacement|_Z13get_detectors|_ZN13MacroDetector|_ZNK13MacroDetector|_Z9push_rule|_Z16push_replacement|_Z10push_macro|_Z1[SDA]R15|_Z2MDR15|_Z5matchR15|_Z9lookaheadR15|_Z7advanceR15|_Z4copyR15|_Z5errorR15|_Z8strToInt|_Z14strToIntSilent)'
@@ -39,16 +38,16 @@ def select_job(name, prios, conf=None, passes=1, nin=2, nbody=1, nmatch=1, adver
     maxr = nbody * max(nmatch, 1)
     ct = nin + 1 + (passes + 1) * max(maxr - 1, 0) + 1
     d = dict(MA_ND=cap_nd, MA_NDEF=nd, MA_NIN=nin, MA_NBODY=nbody, MA_NMATCH=nmatch, MA_RS=2, MA_PMAX=passes, MA_PFIX=passes, MA_CT=ct, MA_NERR=cap_nd + 2,
-             MINISTL_VEC_CAP=1, MINISTL_MAP_CAP=1, MINISTL_STR_CAP=12, MA_PRIOS=_brace(prios, cap_nd), MA_CONF=_brace(conf, cap_nd))
+             MINISTL_VEC_CAP=1, MINISTL_MAP_CAP=1, MINISTL_STR_CAP=12 if passes <= 1 else 16, MA_PRIOS=_brace(prios, cap_nd), MA_CONF=_brace(conf, cap_nd))
     u = max(cap_nd, passes) + 2
     us = {AM + '.%d' % i: u for i in range(4)}
     us[GD + '.0'] = cap_nd + 2; us[GR + '.0'] = nbody + 2
     entry = 'h_adversarial' if adversarial else 'h_select'
     return fw.Job('macro.%s' % name, H, entry, tus=[], defines=_defs(d), caps=CAPS, unwind=max(ct, cap_nd * (passes + 1)) + 2, unwindset=us, tags=list(tags), ub_pat=UB_PAT,
-                  timeout=timeout, stubs=WRAP_STUBS, native=False, extra=['--object-bits', '12'],
-                  what='real Theo::apply_macros, detectors stubbed by contract (%s), real get_replacement behind a recorder: priorities %s in order of definition, rejected %s, passes=%d; oracle replays the recorded detector answers through the specification'
-                       % ('always reports a match' if adversarial else 'nullopt or any (location,length,matched) inside the input before T_EOF, fresh choice per call', list(prios), conf, passes),
-                  bounds='%d definitions (constant priorities/rejections per job, symbolic bodies <= %d tokens of kind ID/INT/;/$0/#k, symbolic slot position), input <= %d symbolic tokens + T_EOF, matched sequences <= %d tokens, passes=%d'
+                  timeout=timeout, stubs=BASE_STUBS, native=False, extra=['--object-bits', '12'],
+                  what='real Theo::apply_macros (with its real helpers), detectors stubbed by contract (%s): priorities %s in order of definition, rejected %s, passes=%d; the oracle replays the recorded detector answers through the specification (which match, which instantiation) and compares with the token sequences apply_macros produced'
+                       % ('always reports a match' if adversarial else 'nullopt or any (location,length,non-empty matched sequences) inside the input before T_EOF, fresh choice per call', list(prios), conf, passes),
+                  bounds='%d definitions (constant priorities/rejections per job, symbolic bodies <= %d tokens of kind ID/INT/;/$0/#k, symbolic slot position), input <= %d symbolic tokens + T_EOF, matched sequences 1..%d tokens, passes=%d'
                          % (nd, nbody, nin, nmatch, passes),
                   functions=FUNCS_APPLY)
 
@@ -60,12 +59,12 @@ PATTERNS2 = [(5, 5), (3, 7), (7, 3)]
 
 def inst_job(tier, tags):
     nb, nt, nm, rs = (2, 2, 2, 3) if tier == 'quick' else (3, 2, 2, 3)
-    d = dict(MA_ND=1, MA_NIN=1, MA_NBODY=nb, MA_NMATCH=nm, MA_RS=rs, MA_PMAX=1, MA_CT=nb * nm, MA_NERR=2, MB_NB=nb, MB_NT=nt, MB_NM=nm,
+    d = dict(MA_ND=1, MA_NIN=1, MA_NBODY=nb, MA_NMATCH=nm, MA_RS=rs, MA_PMAX=1, MA_CT=nb * nm + 1, MA_NERR=2, MB_NB=nb, MB_NT=nt, MB_NM=nm,
              MINISTL_VEC_CAP=1, MINISTL_MAP_CAP=1, MINISTL_STR_CAP=16)
-    return fw.Job('macro.inst', H, 'h_inst', tus=[], defines=_defs(d), caps=CAPS, unwind=nb * nm + 2, unwindset={GR + '.0': nb + 2}, tags=list(tags), ub_pat=UB_PAT,
+    return fw.Job('macro.inst', H, 'h_inst', tus=[], defines=_defs(d), caps=CAPS, unwind=nb * nm + 3, unwindset={GR + '.0': nb + 2}, tags=list(tags), ub_pat=UB_PAT,
                   timeout=600 if tier == 'quick' else 1500, stubs=BASE_STUBS, native=False, extra=['--object-bits', '12'],
-                  what='real get_replacement == body with $n replaced by exactly the tokens of slot template_token_indices[n], #n renamed <#n>:<file>:<line of body[0]>_(M<pass>), everything else copied',
-                  bounds='body 1..%d tokens of symbolic kind in {ID, INT, ;, $0..$%d, #0..#2} with symbolic file/line, %d rule positions, %d slots at symbolic increasing positions, matched sequences <= %d tokens of any kind, pass in [0,1023], line of body[0] <= 99'
+                  what='real get_replacement (called through an adapter over its known signatures; through apply_macros if none fits) == body with $n replaced by exactly the tokens of slot template_token_indices[n], #n renamed <#n>:<file>:<line of body[0]>_(M<pass>), everything else copied; Token vectors model the moved-from state behind std::make_move_iterator',
+                  bounds='body 1..%d tokens of symbolic kind in {ID, INT, ;, $0..$%d, #0..#2} with symbolic file/line, %d rule positions, %d slots at symbolic increasing positions, matched sequences 1..%d tokens of any kind, pass in [0,1023], line of body[0] <= 99'
                          % (nb, nt - 1, rs, nt, nm),
                   functions=['get_replacement', 'strToIntSilent'])
 
@@ -77,6 +76,18 @@ def temp_job(tier, tags):
                   what='two real get_replacement calls on a temporary with symbolic (n, file, defining line, pass): equal inputs equal names; different pass different names; same step different n different names; names start with # and contain : and (',
                   bounds='n <= 99, file name 1-2 arbitrary non-NUL bytes, defining line <= 999, pass <= 1023 (std::to_string of the container model)',
                   functions=['get_replacement'])
+
+
+def hygiene_job(tier, tags):
+    d = dict(MA_ND=1, MA_NDEF=1, MA_NIN=1, MA_NBODY=2, MA_NMATCH=1, MA_RS=2, MA_PMAX=2, MA_PFIX=2, MA_CT=5, MA_NERR=3, MINISTL_VEC_CAP=1, MINISTL_MAP_CAP=1, MINISTL_STR_CAP=16,
+             MA_PRIOS='{5,0}', MA_CONF='{0,0}')
+    us = {AM + '.%d' % i: 4 for i in range(4)}
+    us[GD + '.0'] = 3
+    return fw.Job('macro.hygiene', H, 'h_hygiene', tus=[], defines=_defs(d), caps=CAPS, unwind=7, unwindset=us, tags=list(tags), ub_pat=UB_PAT,
+                  timeout=600 if tier == 'quick' else 1500, stubs=BASE_STUBS, native=False, extra=['--object-bits', '12'],
+                  what='real Theo::apply_macros, one macro whose body is the temporaries #a #b, budget 2, detector always matches (anywhere, with any tokens): the variables introduced by the first step differ from those of the second step, equal/different #n within a step are equal/different variables, no name is in the identifier language; no naming scheme and no pass number assumed',
+                  bounds='a, b in 0..9, input x EOF, second match anywhere in the 2 tokens of the first result, matched tokens with any kind/letter/line <= 99',
+                  functions=FUNCS_APPLY)
 
 
 def constraint_jobs(tier, tags):
